@@ -55,7 +55,7 @@ KIND_TEXT = {
 }
 
 
-def run_slot_rules(ctx, rule_p, rule_o, tu, only_kinds=None, rule_b=None):
+def run_slot_rules(ctx, rule_p, rule_o, tu, only_kinds=None, rule_b=None, classes=None):
     """Run the slot interpretation over the processing functions of tu; report under rule_p / rule_o."""
     n = 0
 
@@ -79,6 +79,8 @@ def run_slot_rules(ctx, rule_p, rule_o, tu, only_kinds=None, rule_b=None):
         ctx.ob(rule, fn, KIND_TEXT.get(kind, kind), ok, detail='%s at %s' % (msg, fn.nloc(node)), where=fn.nloc(node), key_detail=kind)
     interp = SlotInterp(tu, report)
     for q, names in PROCESSING.items():
+        if classes and q not in classes:
+            continue
         for nm in names:
             for f in tu.fns_named('%s::%s' % (q, nm)):
                 if f.kind == 'lambda':
